@@ -258,7 +258,7 @@ func main() {
 			msgs = append(msgs, []byte{})
 			seconds := [][]byte{[]byte("a"), {0x80}, {0xC3, 0xA9}}
 			ds := []drivers.Driver{drivers.ReaderLoop(1), drivers.ReaderLoop(512), drivers.ReadMessageLoop(), drivers.ReadDataLoop("Generic"),
-				drivers.ReaderContinuationHandler(1), drivers.ReaderContinuationHandler(64)}
+				drivers.ReaderContinuationHandler(1), drivers.ReaderContinuationHandler(64), drivers.ReaderCopy(), drivers.ReaderReceiveLoop()}
 			t.Par(len(msgs), func(mi int) {
 				msg := msgs[mi]
 				n := len(msg)
